@@ -238,7 +238,7 @@ func (r *recLogDB) RemoveEntriesTo(shardID uint64, replicaID uint64, index uint6
 			r.h.c.Sink.Violation("C08", "compaction-beyond-durable-snapshot",
 				fmt.Sprintf("host %d replica %d: RemoveEntriesTo(%d) while the recorded snapshot is at %d", r.h.Index, replicaID, index, ss.Index),
 				map[string]interface{}{"host": r.h.Index, "shard": shardID, "replica": replicaID, "compact_to": index, "snapshot_index": ss.Index})
-		} else if !ss.Dummy && !ss.Witness && ss.OnDiskIndex == 0 {
+		} else if !ss.Dummy && !ss.Witness && ss.OnDiskIndex == 0 && ss.Type != pb.OnDiskStateMachine {
 			// regular / concurrent state machine: the recorded snapshot must be
 			// recoverable from disk (on-disk state machines keep their own data;
 			// their streamed snapshots carry no file size)
@@ -415,6 +415,17 @@ func (h *Host) StartReplica(members map[uint64]dragonboat.Target, join bool, kin
 	h.starts = append(h.starts, s)
 	h.mu.Unlock()
 	return nil
+}
+
+// ImportConfig returns the NodeHostConfig of the host, as tools.ImportSnapshot
+// must be given.
+func (h *Host) ImportConfig() config.NodeHostConfig { return h.nhConfig() }
+
+// ForgetAll empties the restart list of the host.
+func (h *Host) ForgetAll() {
+	h.mu.Lock()
+	h.starts = nil
+	h.mu.Unlock()
 }
 
 // NodeHost returns the present NodeHost of the host (nil while it is down).
